@@ -70,12 +70,14 @@ def sweep2_cases(r, n):
             lim_e = dz * dz * vref / np.sqrt(dx * dx + dz * dz)
             lim_v = dx * dx * vref / np.sqrt(dx * dx + dz * dz)
             f = float(r.choice([0.25, 0.5, 0.75, r.uniform(0.05, 0.95)]))
+            late = bool(r.integers(0, 2))
             if k == 6:
-                tt[i - stz, j] = tev - float(r.choice([0.5, 0.25]))
                 tt[i, j - stx] = tev + f * lim_e
+                # the other neighbour either precedes the diagonal one or is too late for the 4-point operator
+                tt[i - stz, j] = (tt[i, j - stx] + dx * vref + 1.0) if late else tev - float(r.choice([0.5, 0.25]))
             else:
-                tt[i, j - stx] = tev - float(r.choice([0.5, 0.25]))
                 tt[i - stz, j] = tev + f * lim_v
+                tt[i, j - stx] = (tt[i - stz, j] + dz * vref + 1.0) if late else tev - float(r.choice([0.5, 0.25]))
             tt[i, j] = tev + 50.0
         elif k == 0:
             tt[i - stz, j] = te + dx * vref            # tv == te + dx*vref
@@ -190,7 +192,7 @@ def solver_cases(r, n, nd):
 FAMILIES = {
     "F2.fteik2d": lambda r, n: solver_cases(r, max(n // 3, 20), 2),
     "F3.fteik3d": lambda r, n: solver_cases(r, max(n // 4, 15), 3),
-    "F2.sweep": lambda r, n: sweep2_cases(r, n),
+    "F2.sweep": lambda r, n: sweep2_cases(r, 3 * n),
     "F3.sweep": lambda r, n: sweep3_cases(r, n),
     "I2._interp2d": lambda r, n: interp_cases(r, n, 2),
     "I3._interp3d": lambda r, n: interp_cases(r, n, 3),
